@@ -547,6 +547,21 @@ func runCheck(prop, tier string, verbose, keep bool, only string) int {
 					nUnsat++
 				case smt.Sat:
 					nSat++
+					if v.VC.Kind == "unwind" && strings.Contains(v.VC.Info, "recursion depth exceeded") && nSat <= maxReplaysPerObligation {
+						// unbounded recursion in the code under test? the native run decides (stack overflow)
+						dir := filepath.Join(verifDir, "replays", prop, fmt.Sprintf("%s-%s-%d", res.Name, sanitize(label), nSat))
+						pv := *v.VC
+						pv.Kind = "panic"
+						if rep := native.replay(res, &pv, v.Model, dir); rep.status == "reproduced" {
+							violations++
+							exit = 1
+							fmt.Printf("VIOLATION property=%s replay=%s\n", prop, dir)
+							fmt.Printf("  harness=%s obligation=%s endless recursion: %s (native: %s)\n  inputs: %s\n", res.Name, label, v.VC.Info, rep.detail, modelString(v.Model, v.VC.Choices))
+							s.Notes = append(s.Notes, "endless recursion: "+modelString(v.Model, v.VC.Choices))
+							continue
+						}
+						_ = os.RemoveAll(dir)
+					}
 					if v.VC.Kind == "unwind" {
 						fmt.Printf("INCONCLUSIVE property=%s harness=%s unwinding bound reached: %s\n", prop, res.Name, v.VC.Info)
 						s.Notes = append(s.Notes, "unwinding bound reached: "+v.VC.Info)
